@@ -127,9 +127,11 @@ pub fn build_by_item_impl(attr: TokenStream, item_impl: &ItemImpl) -> Result<Tok
             .last()
             .ok_or_else(|| Error::new(span, message))?;
 
-    let this_orig = &item_impl.self_ty;
+    // `A + B` / `dyn A +` operand types are parenthesized once, so that they can be used in every position
+    // (`&T`, `<T as Trait>`, `Trait<T>`).
+    let this_orig = &ref_target(&item_impl.self_ty);
     let (this, this_is_ref) = to_ref_elem(this_orig);
-    let rhs_orig = to_rhs(s, this_orig);
+    let rhs_orig = ref_target(&to_rhs(s, this_orig));
     let (rhs, rhs_is_ref) = to_ref_elem(&rhs_orig);
     let g = expand_self_in_impl_generics(&item_impl.generics, this_orig);
     let (impl_g, _, where_g) = &g.split_for_impl();
